@@ -280,9 +280,25 @@ async fn run_session<T: RequestHandler>(
     mut handler: TcpServerConnectionHandler,
     decode: DecodeLevel,
     handlers: ServerHandlerMap<T>,
-    commands: tokio::sync::mpsc::Receiver<ServerCommand>,
+    mut commands: tokio::sync::mpsc::Receiver<ServerCommand>,
 ) {
-    match handler.handle(socket).await {
+    let mut decode = decode;
+    // a connection that is still being established (TLS handshake) must also end when the
+    // session is evicted or the server shuts down
+    let result = {
+        let establish = handler.handle(socket);
+        tokio::pin!(establish);
+        loop {
+            tokio::select! {
+                res = &mut establish => break res,
+                cmd = commands.recv() => match cmd {
+                    None | Some(ServerCommand::Shutdown) => return,
+                    Some(ServerCommand::ChangeDecoding(level)) => decode = level,
+                },
+            }
+        }
+    };
+    match result {
         Err(err) => {
             tracing::warn!("error from {}: {}", addr, err);
         }
